@@ -717,7 +717,7 @@ def hunt(chk, ctx, drv, nproc, budget_s, stall_s=15, configs=((12, 0), (32, 0), 
         fin = sum(1 for l in out if l.startswith("result "))
         done += fin
         per_cfg["w%d/us%d" % (q["w"], q["maxus"])] = per_cfg.get("w%d/us%d" % (q["w"], q["maxus"]), 0) + fin
-        chk.count(("hunt", i), n=max(1, fin))
+        chk.count(("hunt", i), n=1)          # the number of builds a hunt finishes in its time budget depends on the machine: reported as hunt_builds, not as evaluations
         short = fan_scenario(q["w"], 400, lambda b: " sched=threads:%d:%d" % (q["seed0"] + max(0, fin - 200) + b, q["maxus"]))
         if q["hung"]:
             chk.violation("engine-hang", "build() did not return in a fan of %d completions racing within %d us: the driver had finished %d builds and then printed nothing for %ds (lost wake-up or deadlock)" % (q["w"], q["maxus"], fin, stall_s),
